@@ -389,7 +389,11 @@ def generic_run(chk, props, corr=(), system=(), assumptions=()):
         stats = json.load(open(os.path.join(out, c["stats"])))
         files = stats["extra"]["files"]
         mism, errs = run_case_files(files)
-        chk.coverage["correspondence"][c["name"]] = {"cases": stats["cases"], "distinct": stats["distinct"],
+        # negative indices = cases the model cannot compare (outside the modelled fragment / out of fuel)
+        skipped = sum(1 for m in mism for i in m[1] if i < 0)
+        mism = [(f, [i for i in idx if i >= 0]) for f, idx in mism]
+        mism = [m for m in mism if m[1]]
+        chk.coverage["correspondence"][c["name"]] = {"cases": stats["cases"], "distinct": stats["distinct"], "not_comparable": skipped,
                                                       "histogram": stats["histogram"], "disagreements": sum(len(m[1]) for m in mism)}
         chk.coverage["samples"] += stats["samples"][:4]
         for e in errs:
